@@ -132,7 +132,7 @@ fn main() {
                 c18::replay(&v).unwrap_or(false)
             } else if h.starts_with("x2.server-shutdown") || h.starts_with("x2.client-goaway") {
                 c15::replay(&v).unwrap_or(false)
-            } else if h.starts_with("x2.life") || h.starts_with("x2.server-life") {
+            } else if h.starts_with("x2.life") || h.starts_with("x2.server-life") || h.starts_with("x2.push-life") {
                 c19::replay(&v).unwrap_or(false)
             } else if h.starts_with("x2.acks") || h == "c14.fill" {
                 c14::replay(&v).unwrap_or(false)
